@@ -17,6 +17,12 @@ type FuncInfo struct {
 	Export bool
 }
 
+// Undefined returns true if the function was only called so far, a call of
+// it was compiled before any definition of it was made.
+func (obj *FuncInfo) Undefined() bool {
+	return obj.Doc == nil && obj.Aux == nil && len(obj.Kind) == 0
+}
+
 // String representation of the Object.
 func (obj *FuncInfo) String() string {
 	return string(obj.Append([]byte{}))
